@@ -655,8 +655,12 @@ func (r *stack) transfer(dest *stack) (ok bool) {
 
 	// if a capacity was set, make sure
 	// the destination can handle it...
+	// note the lengths before we start
+	var n int = r.ulen()
+	var d1 int = dest.ulen()
+
 	if dest.cap() > 0 {
-		if r.ulen() > dest.cap()-r.ulen() {
+		if n > dest.cap()-dest.len() {
 			// capacity is in-force, and
 			// there are too many slices
 			// to xfer.
@@ -668,13 +672,13 @@ func (r *stack) transfer(dest *stack) (ok bool) {
 	// xfer slices, without any regard for
 	// nilness. Slice type is not subject
 	// to discrimination.
-	for i := 0; i < r.ulen(); i++ {
+	for i := 0; i < n; i++ {
 		sl, _, _ := r.index(i) // cfg offset handled by index method
 		dest.push(sl)
 	}
 
-	// return result
-	ok = dest.ulen() >= r.ulen()
+	// return result: every slice must have arrived
+	ok = dest.ulen() == d1+n
 
 	return
 }
